@@ -77,6 +77,7 @@ FUNCS = {
     # key functions
     'mod2': lambda x: x % 2,
     'mod3': lambda x: x % 3,
+    'mod150': lambda x: x % 150,
     'div10': lambda x: x // 10,
     'div100': lambda x: x // 100,
     'big_mod2': _big,
